@@ -7,7 +7,10 @@ EXTENDS MqttWire, Json, IOUtils, Sequences, SequencesExt, Randomization
 Thorough == IOEnv.TIER = "thorough"
 Out(name) == IOEnv.OUTDIR \o "/" \o name
 
-U32s == {<<0, 0, 0, 0>>, <<0, 0, 0, 1>>, <<255, 255, 255, 255>>}
+\* four-byte integers: the extremes, and values that a detour through a narrower or a floating-point type would not survive
+\* (65536 + 1, 2^24 + 1, 100 000 001, 2^31 - 1, 0xdeadbeef, 2^32 - 2)
+U32s == {<<0, 0, 0, 0>>, <<0, 0, 0, 1>>, <<255, 255, 255, 255>>, <<0, 1, 0, 1>>, <<1, 0, 0, 1>>, <<5, 245, 225, 1>>, <<127, 255, 255, 255>>,
+         <<222, 173, 190, 239>>, <<255, 255, 255, 254>>}
 U32few == {<<0, 0, 1, 44>>}
 SLens == {0, 1, 127, 128, 16383, 16384, 65535}                \* boundary lengths of strings and binaries
 
